@@ -32,39 +32,39 @@ RULES = {
 
 # (regex over counter names, minimum total) — a run that did not observe these is inconclusive
 GATES = {
-    "C01": [(r"^canary-redecodes$", 50, "sum"), (r"^reverse-pass-decodes$", 50, "sum"), (r"^direct-key-api$", 10, "sum"), (r"^interference-steps$", 50, "sum"), (r"^cls\.valid-sig-r-leading-zero\..*\.accept$", 1, "sum"),
+    "C01": [(r"^lib-made-records-judged$", 200, "sum"), (r"^cls\.sig-over-other-framing\..*\.reject$", 10, "sum"), (r"^concurrent-decodes$", 200, "sum"), (r"^canary-redecodes$", 50, "sum"), (r"^reverse-pass-decodes$", 50, "sum"), (r"^direct-key-api$", 10, "sum"), (r"^interference-steps$", 50, "sum"), (r"^cls\.valid-sig-r-leading-zero\..*\.accept$", 1, "sum"),
             (r"^accepted\.(k256|libsecp256k1|ed25519|combined|toy)$", 1, "per"),
             (r"^cls\.sig-high-s-twin\.(k256|libsecp256k1|combined)\.reject$", 1, "per"),
             (r"^cls\.(sig-by-other-key|sig-over-seq-plus-1|sig-over-value-changed|sig-of-another-record|sig-wrong-length|pubkey-swapped)\.(k256|libsecp256k1|ed25519|combined)\.reject$", 1, "per"),
             (r"^cls\.bit-flip\..*\.reject$", 1000, "sum"), (r"^cls\.truncation\..*\.reject$", 100, "sum")],
-    "C02": [(r"^canary-redecodes$", 100, "sum"), (r"^interference-steps$", 50, "sum"), (r"^cls\.sig-der-encoded\..*\.reject$", 1, "sum"),
+    "C02": [(r"^lib-made-records-judged$", 200, "sum"), (r"^concurrent-decodes$", 200, "sum"), (r"^canary-redecodes$", 100, "sum"), (r"^interference-steps$", 50, "sum"), (r"^cls\.sig-der-encoded\..*\.reject$", 1, "sum"),
             (r"^ref\.accept\.(k256|libsecp256k1|ed25519|combined|toy)\.accept$", 1, "per"),
             (r"^ref\.(unsorted-keys|duplicate-key|missing-value|no-id|id|no-pubkey|pubkey-invalid|pubkey-not-string|port|ip|ip6|seq|item-frame|outer-not-list|outer-frame|size|signature|key-not-string|signature-not-string|empty-list|no-seq)\.[a-z0-9]+\.reject$", 1, "each-rule")],
-    "C03": [(r"^c03\.error-values-formatted$", 100, "sum"), (r"^byte-value-histories$", 50, "sum"),
+    "C03": [(r"^concurrent-decodes$", 200, "sum"), (r"^concurrent-steps$", 100, "sum"), (r"^c03\.error-values-formatted$", 100, "sum"), (r"^byte-value-histories$", 50, "sum"),
             (r"^c03\.accessor-calls$", 1000, "sum"), (r"^decode\.", 1000, "sum"), (r"^c03\.string-calls$", 1000, "sum"), (r"^steps$", 500, "sum")],
     "C04": [(r"^accepted$", 100, "sum"), (r"^c04\.roundtrips$", 500, "sum")],
-    "C05": [(r"^aux-record-steps$", 100, "sum"), (r"^fault-histories$", 10, "sum"), (r"^byte-value-histories$", 100, "sum"), (r"^random-builder-plans$", 10, "sum"), (r"^builder-reuse$", 1, "sum"),
+    "C05": [(r"^short-signature-cases$", 20, "sum"), (r"^incremental-builds$", 100, "sum"), (r"^fault-len1-histories$", 50, "sum"), (r"^concurrent-steps$", 100, "sum"), (r"^aux-record-steps$", 100, "sum"), (r"^fault-histories$", 10, "sum"), (r"^byte-value-histories$", 100, "sum"), (r"^random-builder-plans$", 10, "sum"), (r"^builder-reuse$", 1, "sum"),
             (r"^states-checked$", 1000, "sum"), (r"^rekey-steps-ok$", 20, "sum"), (r"^op\.[a-z_0-9]+\.ok$", 1, "each-op")],
-    "C06": [(r"^fault\.injected-runs$", 500, "sum"), (r"^c06\.evals$", 1000, "sum"),
+    "C06": [(r"^concurrent-steps$", 100, "sum"), (r"^fault\.injected-runs$", 500, "sum"), (r"^c06\.evals$", 1000, "sum"),
             (r"^gate\.fail\.(set_seq|insert|typed-setter|remove_key|set_socket|remove_insert)\.signer-fault$", 1, "per"),
             (r"^gate\.fail\.(insert|typed-setter|remove_key|set_socket|remove_insert)\.seq-overflow$", 1, "per"),
             (r"^gate\.fail\.(set_seq|insert|typed-setter|set_socket|remove_insert)\.size$", 1, "per"),
             (r"^gate\.fail\.(insert|remove_insert)\.(ill-typed|unsupported-id)$", 1, "per"),
             (r"^gate\.fail\.insert\.malformed-rlp$", 1, "per")],
-    "C07": [(r"^c07\.evals$", 1000, "sum"), (r"^c07\.decode-seq-evals$", 500, "sum"), (r"^gate\.fail\.[a-z_-]+\.seq-overflow$", 10, "sum")],
-    "C08": [(r"^c08\.evals$", 1000, "sum"), (r"^op\.[a-z_0-9]+\.ok$", 1, "each-op"), (r"^op\.build\.(ok|err)$", 1, "per")],
+    "C07": [(r"^concurrent-steps$", 100, "sum"), (r"^c07\.evals$", 1000, "sum"), (r"^c07\.decode-seq-evals$", 500, "sum"), (r"^gate\.fail\.[a-z_-]+\.seq-overflow$", 10, "sum")],
+    "C08": [(r"^concurrent-steps$", 100, "sum"), (r"^c08\.evals$", 1000, "sum"), (r"^op\.[a-z_0-9]+\.ok$", 1, "each-op"), (r"^op\.build\.(ok|err)$", 1, "per")],
     "C09": [(r"^c09\.minimal-record-cases$", 50, "sum"), (r"^c09\.cross-scheme-cases$", 10, "sum"),
             (r"^c09\.targeted-cases$", 1000, "sum"), (r"^gate\.c09\.target\.(insert|typed-setter|set_socket|remove_insert|set_seq)\.(le300|gt300)$", 1, "per"),
             (r"^gate\.c09\.refused\.(insert|typed-setter|set_socket|remove_insert|set_seq)$", 1, "per"), (r"^gate\.build-ok-size\.small$", 1, "sum"),
             (r"^gate\.fail\.build\.size$", 1, "sum")],
-    "C10": [(r"^c10\.evals$", 1000, "sum"), (r"^c10\.same-key-pairs$", 100, "sum"), (r"^accepted\.(k256|libsecp256k1|ed25519|combined)$", 1, "per")],
-    "C11": [(r"^direct-key-api$", 10, "sum"), (r"^cls\.ed-small-order-key\.", 10, "sum"),
+    "C10": [(r"^fault-len1-histories$", 50, "sum"), (r"^c10\.evals$", 1000, "sum"), (r"^c10\.same-key-pairs$", 100, "sum"), (r"^accepted\.(k256|libsecp256k1|ed25519|combined)$", 1, "per")],
+    "C11": [(r"^concurrent-decodes$", 200, "sum"), (r"^direct-key-api$", 10, "sum"), (r"^cls\.ed-small-order-key\.", 10, "sum"),
             (r"^c11\.compared-accepting\.(k256-libsecp256k1|k256-combined|libsecp256k1-combined|ed25519-combined)$", 1, "per"),
             (r"^c11\.isolation-checks$", 100, "sum"), (r"^c11\.precedence-checks$", 10, "sum"), (r"^c11\.cross-redecode\.", 100, "sum")],
     "C12": [(r"^text\.codepoint-sweep\.", 1000, "sum"), (r"^text\.non-string-json\.reject$", 10, "sum"),
             (r"^text\.(canonical|canonical-noprefix)\.accept$", 1, "per"),
             (r"^text\.(other-prefix|padding|whitespace|foreign-character|trailing-bits|bytes-after-record)\.reject$", 1, "per")],
-    "C13": [(r"^stream\.size-sweep$", 100, "sum"), (r"^stream\.mixed-sequences$", 10, "sum"), (r"^stream\.embedded-records$", 5, "sum"), (r"^stream\.encoded-lists$", 10, "sum"), (r"^stream\.valid-after-refused$", 10, "sum"), (r"^stream\.reverse-pass$", 5, "sum"),
+    "C13": [(r"^cls\.tiny-item\.|^stream\.invalid-item\.reject$", 100, "sum"), (r"^concurrent-decodes$", 200, "sum"), (r"^stream\.size-sweep$", 100, "sum"), (r"^stream\.mixed-sequences$", 10, "sum"), (r"^stream\.embedded-records$", 5, "sum"), (r"^stream\.encoded-lists$", 10, "sum"), (r"^stream\.valid-after-refused$", 10, "sum"), (r"^stream\.reverse-pass$", 5, "sum"),
             (r"^stream\.valid-item\.accept$", 100, "sum"), (r"^stream\.invalid-item\.reject$", 100, "sum"), (r"^stream\.sequences$", 10, "sum"), (r"^stream\.lists$", 10, "sum")],
     "C14": [(r"^ports\.(builder|setter|socket-setter|decode)$", 65536 * 4 * 2, "per"), (r"^presence-combinations$", 64 * 3, "sum"), (r"^c14\.get_decodable-evals$", 100, "sum")],
     "C15": [(r"^c15\.size-boundary-cases$", 10, "sum"),
